@@ -14,6 +14,12 @@ Theorem C04_ser_parse : forall s, wf_script s -> parse_script (serialize s) = So
 Proof. exact ser_parse. Qed.
 Print Assumptions C04_ser_parse.
 
+(* ... and conversely every byte string that parses is the serialisation of what it parses to
+   (the structured-script parser of the specification side is canonical) *)
+Theorem C04_parse_ser : forall b s, is_bytes b -> parse_script b = Some s -> serialize s = b.
+Proof. exact parse_ser. Qed.
+Print Assumptions C04_parse_ser.
+
 (* ... in particular on every encoding: the structured script is recovered from the bytes *)
 Theorem C04_parse_encode : forall c ke, ksort_ok ke -> forall m, ms_wf c ke m ->
   parse_script (encode ke m) = Some (enc ke m).
